@@ -779,7 +779,9 @@ class Backend:
             envlist = []
             for k, v in env.get_env({}).items():
                 envlist.append(f'{k}={v}')
-            return ['env'] + envlist + es.cmd_args, ', '.join(reasons)
+            # A newline cannot be written into a ninja command: serialise instead
+            if not any('\n' in e for e in envlist):
+                return ['env'] + envlist + es.cmd_args, ', '.join(reasons)
 
         if can_use_rsp_file and any(a.startswith(rsp_file_flag) for a in es.cmd_args):
             reasons.append('because command is too long')
